@@ -248,6 +248,7 @@ def run(ctx):
     rule_cascade(ctx)
     rule_type_table(ctx)
     rule_remap_mask(ctx)
+    rule_cost_cascade(ctx)
 
 
 def rule_remap_mask(ctx):
@@ -332,9 +333,47 @@ def rule_remap_mask(ctx):
                f"rows of {'/'.join(tabs)}.{col} to rewrite are selected from {sorted(read) or ['<index>']}" if not extra else
                f"the rows of {'/'.join(tabs)}.{col} that are rewritten also depend on {extra}: rows holding an old index but "
                f"excluded by that column keep a stale reference", fi.loc(st))
+    # all reference rewrites select the rows of the same elements: the ones whose own index is rewritten (old_indices)
+    srcs = []
+    for c in ast.walk(fn):
+        if isinstance(c, ast.Call) and isinstance(c.func, ast.Attribute) and c.func.attr == "isin" and c.args and \
+                any(k in ast.unparse(c.func.value) for k in (".element", "res_index")):
+            srcs.append((ast.unparse(c.func.value), ast.unparse(c.args[0]), c))
+    for tgt, src, c in srcs:
+        ctx.ob(R, f"{DM}::reindex_elements::isin:{tgt}", src == "old_indices",
+               f"{tgt}.isin({src})" if src == "old_indices" else
+               f"`{tgt}.isin({src})` selects the references by another set than old_indices, the set that restricts the re-indexing of the element "
+               "table itself: with a restricting old_indices the references of untouched elements are rewritten too", fi.loc(c))
+    if len(srcs) < 4:
+        ctx.fail(f"REMAP-MASK: only {len(srcs)} isin() selections found in reindex_elements (confirmed: res index, measurement, switch, cost)")
     if n < 4:
         ctx.fail(f"REMAP-MASK: only {n} masked reference rewrites found in reindex_elements (confirmed: measurement, switch, "
                  "line_geodata, cost, group)")
+
+
+def rule_cost_cascade(ctx):
+    R = "COST-CASCADE"
+    ctx.rule(R, "drop_elements_at_buses drops the cost rows of every element it drops, whatever the name of the element's bus column "
+                "(dcline: from_bus / to_bus): the cost-dropping statements are guarded by no test on the column name")
+    fi = ctx.repo.func(f"{GM}:drop_elements_at_buses")
+    pm = {c: p for p in ast.walk(fi.node) for c in ast.iter_child_nodes(p)}
+    n = 0
+    for st in ast.walk(fi.node):
+        if isinstance(st, ast.Assign) and "cost" in ast.unparse(st.targets[0]) and ".drop(" in ast.unparse(st.value):
+            n += 1
+            cur, bad = st, None
+            while cur in pm:
+                cur = pm[cur]
+                if isinstance(cur, ast.If) and any(isinstance(c, ast.Compare) and any(isinstance(x, ast.Name) and x.id == "column" for x in [c.left] + c.comparators)
+                                                   and any(isinstance(x, (ast.Constant, ast.List, ast.Tuple, ast.Set)) for x in [c.left] + c.comparators)
+                                                   for c in ast.walk(cur.test)):
+                    bad = cur
+            ctx.ob(R, f"{GM}::drop_elements_at_buses::cost-drop#{n}", bad is None,
+                   "cost rows dropped for every dropped element" if bad is None else
+                   f"the cost drop is guarded by `{ast.unparse(bad.test)}`: costs of elements connected through other bus columns (dcline) keep "
+                   "pointing at a removed element", fi.loc(st))
+    if n < 1:
+        ctx.fail("drop_elements_at_buses: cost drop not found")
 
 
 def rule_type_table(ctx):
@@ -369,6 +408,8 @@ def variants(repo):
         V("switch links of closed switches only", dm, replace_once("affected = net.switch[(net.switch.et == switch_et) &", "affected = net.switch[net.switch.closed & (net.switch.et == switch_et) &"), "REMAP-MASK"),
         V("twin: measurement mask split in two steps", dm, replace_once("    affected = net.measurement[(net.measurement.element_type == element_type) &\n                               (net.measurement.element.isin(old_indices))]\n",
             "    m_type = net.measurement.element_type == element_type\n    affected = net.measurement[m_type & (net.measurement.element.isin(old_indices))]\n"), None),
+        V("switch references selected by the lookup keys", dm, replace_once("(net.switch.element.isin(old_indices))]", "(net.switch.element.isin(lookup.keys()))]"), "REMAP-MASK"),
+        V("costs dropped for the bus column only", gm, in_function("drop_elements_at_buses", lambda s: s.replace('                for cost_elm in ["poly_cost", "pwl_cost"]:\n                    net[cost_elm] = net[cost_elm].drop(net[cost_elm].index[\n                        (net[cost_elm].et == element_type) &\n                        (net[cost_elm].element.isin(eid))])', '                if column == "bus":\n                    for cost_elm in ["poly_cost", "pwl_cost"]:\n                        net[cost_elm] = net[cost_elm].drop(net[cost_elm].index[\n                            (net[cost_elm].et == element_type) &\n                            (net[cost_elm].element.isin(eid))])', 1)), "COST-CASCADE"),
         V("t3 code lost", dm, replace_once('{"line": "l", "trafo": "t", "trafo3w": "t3"}[element_type]', 'element_type[0]'), "switch.et=t3"),
         V("trafo3w switches skipped", dm, replace_once('    if element_type in ["line", "trafo", "trafo3w"]:\n        switch_et', '    if element_type in ["line", "trafo"]:\n        switch_et'), "switch.et=t3"),
         V("measurement restricted again", dm, replace_once('    affected = net.measurement[(net.measurement.element_type == element_type) &\n                               (net.measurement.element.isin(old_indices))]\n    if len(affected):\n        net.measurement.loc[affected.index, "element"] = get_indices(affected.element, lookup)\n',
